@@ -316,6 +316,9 @@ def main():
     if not a.no_evidence:
         os.makedirs(os.path.join(HERE, "evidence"), exist_ok=True)
         json.dump(ev, open(os.path.join(HERE, "evidence", prop + ".json"), "w"), indent=1, default=str)
+        # the file above is rewritten by every run; a copy per tier keeps the last quick and the last thorough run side by side
+        os.makedirs(os.path.join(HERE, "evidence", "by-tier"), exist_ok=True)
+        json.dump(ev, open(os.path.join(HERE, "evidence", "by-tier", "%s.%s.json" % (prop, tier)), "w"), indent=1, default=str)
     print("%s %s: %s  paths=%d distinct=%d queries=%d solver=%.1fs cpu=%.0fs wall=%.1fs known=%d" % (
         prop, tier, verdict, total_paths, distinct, cov["solver_queries"], cov["solver_seconds"], cov["cpu_seconds"], wall,
         len(seen_kf)))
